@@ -218,6 +218,14 @@ def patch_equivalences(chk, root):
          ['T greedy x'], 'struct T { u32 n; u16 x<...>; };'),
         ('type, insert, remove, rename', head + '<member name="a" type="u8"/><member name="b" type="u16"/></struct></x>',
          ['T type a u64', 'T insert 1 k u16', 'T remove b', 'T rename a aa'], 'struct T { u32 n; u16 k; u64 aa; };'),
+        ('type on an optional member', head + '<member name="x" type="u16" optional="true"/><member name="t" type="u8"/></struct></x>',
+         ['T type x u64'], 'struct T { u32 n; u64* x; u8 t; };'),
+        ('type on a fixed and on a variable-size array', head + '<member name="x" type="u16"><dimension size="2"/></member><member name="y" type="u8"><dimension isVariableSize="true"/></member></struct></x>',
+         ['T type x u32', 'T type y u16'], 'struct T { u32 n; u32 x[2]; u32 y_len; u16 y<@y_len>; };'),
+        ('rename of an optional and an array', head + '<member name="x" type="u16" optional="true"/><member name="y" type="u8"><dimension size="3"/></member></struct></x>',
+         ['T rename x xx', 'T rename y yy'], 'struct T { u32 n; u16* xx; u8 yy[3]; };'),
+        ('insert at the front, in the middle, beyond the end', head + '<member name="a" type="u8"/></struct></x>',
+         ['T insert 0 f u16', 'T insert 2 m u32', 'T insert 99 e u64'], 'struct T { u16 f; u32 n; u32 m; u8 a; u64 e; };'),
         ('dynamic then static', head + '<member name="x" type="u16"><dimension size="2"/></member></struct></x>',
          ['T dynamic x n', 'T static x 5'], 'struct T { u32 n; u16 x[5]; };'),
     ]
